@@ -225,7 +225,8 @@ Print Assumptions C28_command_abbr_dot_at_end.
 (* ---- the oracle evaluated on the implementation's observations ---- *)
 
 (* check_step = true implies the property for that observed step: the new
-   cursor is on a character boundary inside the buffer; a kill deleted exactly
+   cursor is on a character boundary inside the buffer and valid UTF-8 stayed
+   valid UTF-8 (no character cut in half); a kill deleted exactly
    the text between the old cursor and the target of its move twin; a
    transpose only permuted the runes; a word motion landed on the nearest word
    start. *)
